@@ -74,6 +74,8 @@ CATALOGUE = {
         atoms=[[(1, 2, 4, 6)], [(3, 1, 7, 4)], [(6, 3, 9, 8)]],
         gp=True,
     ),
+    # a ring (rectangle with a hole) and a small rectangle inside the ring
+    "U3dot": dict(N=10, atoms=[[(1, 1, 9, 9)], [(2, 2, 5, 5)], [(6, 6, 8, 8)]], gp=True),
     # four nested rectangles: rings inside the holes of rings (nesting depth 4)
     "U4nest": dict(
         N=10,
